@@ -8,6 +8,7 @@ rows writing back the carried value, duplicate targets resolved arbitrarily (`ch
 `specRun` is the padding-free block Gauss–Seidel recursion over the same batches.
 -/
 import MdpaxV.Theory.SemiAsync
+import MdpaxV.Theory.GaussSeidel
 import MdpaxV.Props.C01
 set_option linter.unusedSectionVars false
 namespace MdpaxV.C06
@@ -172,6 +173,53 @@ theorem semiasync_fixed_point (hv : C02.Valid P c) (hw : C01.IdxWF P) (V : List 
     have hjp : j ∈ p := (hperm p rfl).mem_iff.mpr hj
     have hidx : p.idxOf j < p.length := List.idxOf_lt_length_iff.mpr hjp
     simp [List.getD_eq_getElem?_getD, List.getElem?_map, List.getElem?_eq_getElem hidx, List.getElem_idxOf hidx]
+
+/-- **same fixed point as synchronous value iteration, both directions**: for every partition, every permutation and every
+    collision resolution, a vector is left unchanged by the semi-asynchronous sweep iff it is a fixed point of the Bellman
+    optimality operator -/
+theorem semiasync_fixed_point_iff (hv : C02.Valid P c) (hw : C01.IdxWF P) (V : List α) (hV : V.length = P.nS)
+    (perm : Option (List Nat)) (hperm : ∀ p, perm = some p → p.Perm (List.range P.nS))
+    (choose : Nat → Bool) (padv : α) :
+    semiSweep P c γ V perm choose padv = V ↔ (List.range P.nS).map (backup P γ (look V)) = V := by
+  constructor
+  · intro hsw
+    have hperm' : (orderOf' c.n perm).Perm (List.range c.n) := by
+      unfold orderOf'
+      rw [hv.2.1]
+      cases perm with
+      | none => exact List.Perm.refl _
+      | some p => exact hperm p rfl
+    have := semiSweep_fixed_conv P c (C02.valid18 hv) hv.2.1 hw γ V hV perm hperm' choose padv hsw
+    apply List.ext_getElem
+    · simp [hV]
+    · intro i h1 h2
+      have hi : i < P.nS := by simpa using h1
+      simp only [List.getElem_map, List.getElem_range]
+      rw [this i hi]
+      simp [List.getD_eq_getElem?_getD, List.getElem?_eq_getElem h2]
+  · intro hfix
+    exact semiasync_fixed_point P c γ hv hw V hV hfix perm hperm choose padv
+
+/-- **Gauss–Seidel contraction towards the fixed point**: for every schedule, a sweep of a vector within δ of a fixed
+    point `Wst` of the Bellman operator is within γ·δ of it (0 ≤ γ ≤ 1) — so the iteration converges to the same solution
+    as synchronous value iteration whatever the order and the seed -/
+theorem gs_contraction (hv : C02.Valid P c) (hw : C01.IdxWF P) (hγ0 : 0 ≤ γ) (hγ1 : γ ≤ 1) (hst : Stoch P) (hA : 0 < P.nA)
+    (Wst : List α) (hWl : Wst.length = P.nS) (hfix : (List.range P.nS).map (backup P γ (look Wst)) = Wst)
+    (V : List α) (hV : V.length = P.nS) (δ : α) (hδ : 0 ≤ δ) (hclose : ∀ i, i < P.nS → |V.getD i 0 - Wst.getD i 0| ≤ δ)
+    (perm : Option (List Nat)) (hperm : ∀ p, perm = some p → p.Perm (List.range P.nS)) (choose : Nat → Bool) (padv : α)
+    (s : Nat) (hs : s < P.nS) :
+    |(semiSweep P c γ V perm choose padv).getD s 0 - Wst.getD s 0| ≤ γ * δ := by
+  have hperm' : (orderOf' c.n perm).Perm (List.range c.n) := by
+    unfold orderOf'
+    rw [hv.2.1]
+    cases perm with
+    | none => exact List.Perm.refl _
+    | some p => exact hperm p rfl
+  have hfix' : ∀ t, t < P.nS → backup P γ (look Wst) t = Wst.getD t 0 := by
+    intro t ht
+    have : ((List.range P.nS).map (backup P γ (look Wst))).getD t 0 = Wst.getD t 0 := by rw [hfix]
+    simpa [List.getD_eq_getElem?_getD, List.getElem?_range ht] using this
+  exact semiSweep_contracts P c (C02.valid18 hv) hv.2.1 hw γ hγ0 hγ1 hst hA Wst hWl hfix' V hV δ hδ hclose perm hperm' choose padv s hs
 
 /-! ### reproducibility from the seed -/
 
